@@ -44,7 +44,8 @@ RULE = ('one Hypothesis draw = one program of one family (assoc: gen_assoc + do_
         '-fsyntax-only accepts the files in dependency order. Anomalies already present before the transformation are not counted. '
         'non-trivial = the irdump of the files changed AND the set of (unit, symbol name) reachable in the units changed (a symbol '
         'was introduced or removed); distinct by hash of (family, program, transformation, options). Signature = '
-        'C41:<scope|undeclared|fgen|reparse|gfortran>:<transformation entry point(s)>:<tag>; tags: kind of the wrong scope '
+        'C41:<scope|undeclared|fgen|reparse|gfortran>:<transformation entry point(s)>:<tag> (the one backend root cause "negative term '
+        'printed directly after an operator" is C41:reparse:fgen:signed-operand-directly-after-operator whatever the transformation); tags: kind of the wrong scope '
         '(unscoped, detached-<node class>, other-unit, stale-copy-of-..., unit-parent-is-not-its-container), class of the undeclared '
         'symbol, exception class / shape of the offending generated line for the frontend, a closed error category for gfortran '
         '(the compiler message itself only appears in the detail)')
@@ -360,17 +361,30 @@ def unit_names(sfs):
     return sorted(W._uname(u, anc) for u, anc in W.units([sf for sf in sfs if sf is not None]))  # pylint: disable=protected-access
 
 
-_SIGNED_OPERAND = re.compile(r'[-+*/]\s*-\s*[\w.(]')
+_SIGNED_OPERAND = re.compile(r'(?<![(])[-+*/]\s*-\s*[\w.(]')
+SIGNED_TAG = 'signed-operand-directly-after-operator'
+# ONE backend root cause whatever transformation built the expression (flatten_arrays: Sum((k, -1)); ParametriseTransformation /
+# inline_constant_parameters: negative value substituted; inlining: actual argument `-x` substituted for a dummy): fgen prints a
+# negative term after an operator without parentheses. The signature names the backend, not the transformation.
+BACKEND_LABEL = 'fgen'
 
 
 def reparse_tag(exc, text):
-    """root-cause tag of a frontend rejection, decided from the GENERATED text (the line the parser names), never from the message"""
+    """root-cause tag of a frontend rejection, decided from the GENERATED text (the whole continued statement that ends in / contains
+    the line the parser names), never from the message"""
     m = re.search(r'at line (\d+)', str(exc))
     if m and type(exc).__name__ == 'FortranSyntaxError':
-        lines = text.split('\n')
+        lines = [l.split('!')[0].rstrip() for l in text.split('\n')]
         k = int(m.group(1)) - 1
-        if 0 <= k < len(lines) and _SIGNED_OPERAND.search(lines[k].split('!')[0]):
-            return 'signed-operand-directly-after-operator'
+        if 0 <= k < len(lines):
+            a = b = k
+            while a > 0 and lines[a - 1].endswith('&'):
+                a -= 1
+            while b + 1 < len(lines) and lines[b].endswith('&'):
+                b += 1
+            stmt = ' '.join(l.strip().strip('&').strip() for l in lines[a:b + 1])
+            if _SIGNED_OPERAND.search(stmt):
+                return SIGNED_TAG
     return 'raises-' + type(exc).__name__
 
 
@@ -460,7 +474,8 @@ def evaluate(case, prog=None, parser=None, texts=None):
         if _identity_fails(case, texts, prog, 'reparse'):
             res['excluded'].append(FRONTEND_EXCLUSION)
         else:
-            res['failures'].append((f'{ID}:reparse:{label}:{bad[0]}', f'{xf_text(case)}: {bad[1]}'))
+            lab = BACKEND_LABEL if bad[0] == SIGNED_TAG else label
+            res['failures'].append((f'{ID}:reparse:{lab}:{bad[0]}', f'{xf_text(case)}: {bad[1]}'))
     # ---- (4) compiler
     err = fut.result()
     if err is not None:
@@ -593,8 +608,18 @@ def strategies(ctx):
 # is listed in known_findings.d/C41.txt the trigger is not generated (draws counted as excluded); it lives in the committed
 # replay only. As soon as the line is turned into `fixed:` the trigger is generated again.
 K_SPLIT = 'C41:scope:split_loop:unscoped'
-K_FLATTEN = 'C41:reparse:flatten_arrays:signed-operand-directly-after-operator'
-K_PARAM_NEG = 'C41:reparse:ParametriseTransformation:signed-operand-directly-after-operator'
+K_FLATTEN = K_PARAM_NEG = 'C41:reparse:fgen:signed-operand-directly-after-operator'
+K_CONST_DECL = 'C41:fgen:inline_constant_parameters:raises-AttributeError'
+
+
+def const_decl_trigger(spec, feats, ep, o):
+    """trigger of K_CONST_DECL: a local PARAMETER whose initial value is not a plain literal (`5-1`, `-2`) and
+    inline_constant_parameters(external_only=False), directly or through InlineTransformation"""
+    if 'param_local' not in feats or not (spec['flags'].get('param_expr') or spec['flags'].get('param_neg')):
+        return False
+    if o.get('external_only'):
+        return False
+    return ep == 'constants' or (ep == 'trafo' and bool(o.get('inline_constants')))
 
 
 def expand(draw, ctx):
@@ -648,6 +673,9 @@ def expand(draw, ctx):
             if skip:
                 for why in skip:
                     ctx.exclude('inline:' + why)
+                continue
+            if K_CONST_DECL in ctx.known_sigs and const_decl_trigger(spec, feats, ep, o):
+                ctx.exclude('inline:listed-C41-finding:inline_constant_parameters-leaves-expression-as-declared-symbol')
                 continue
             allowed.append((ep, o))
         k0 = spec.get('seed', 0) % max(1, len(allowed))
